@@ -2,6 +2,7 @@ package keylab
 
 import (
 	"bytes"
+	"encoding/binary"
 	"fmt"
 	"os"
 	"path/filepath"
@@ -86,6 +87,7 @@ type world struct {
 	prev    []ent
 	removal map[tkey]string // last operation that removed the key
 	kvVal   map[tkey]string
+	univ    []tkey
 	steps   int
 	recent  []stepRec
 	stopAt  int // replay: stop after this step (0 = run all)
@@ -300,6 +302,23 @@ func (st *stepT) allowedOwner(o owner) bool {
 	return false
 }
 
+// kvOnly: every target is a plain KV key (the operations of the kv script).
+func (st *stepT) kvOnly() bool {
+	for _, t := range st.Targets {
+		if t.TableWide || t.Type != "kv" || t.AlsoKV {
+			return false
+		}
+	}
+	return len(st.Targets) > 0 && !st.ExpectErr
+}
+
+func counterValue(v []byte) int64 {
+	if len(v) != 8 {
+		return 0
+	}
+	return int64(binary.LittleEndian.Uint64(v))
+}
+
 func (st *stepT) allowedLine(kind, table, key string) bool {
 	for _, t := range st.Targets {
 		if table != t.Table {
@@ -391,6 +410,24 @@ func (w *world) doStep(st *stepT) bool {
 	// ---- raw + logical oracle over the merged before/after snapshots ----
 	nB, nRaw := 0, 0
 	t0 := st.Targets[0]
+	// exact table bookkeeping (kv operations): per table, kv keys created - removed and the counter before/after
+	type tblAcc struct {
+		made, gone      int64
+		cBefore, cAfter int64
+		cTouched        bool
+	}
+	var tbl map[string]*tblAcc
+	if st.kvOnly() {
+		tbl = map[string]*tblAcc{}
+	}
+	acc := func(t string) *tblAcc {
+		a := tbl[t]
+		if a == nil {
+			a = &tblAcc{}
+			tbl[t] = a
+		}
+		return a
+	}
 	diffSnap(w.prev, cur, func(ch change, same bool) {
 		var e *ent
 		if ch.after != nil {
@@ -419,6 +456,23 @@ func (w *world) doStep(st *stepT) bool {
 				}
 			}
 			return
+		}
+		if tbl != nil && ch.rawChanged() && o.Err == "" {
+			switch {
+			case o.Kind == "kv" && ch.before == nil:
+				acc(o.Table).made++
+			case o.Kind == "kv" && ch.after == nil:
+				acc(o.Table).gone++
+			case o.Kind == "counter":
+				a := acc(o.Table)
+				a.cTouched = true
+				if ch.before != nil {
+					a.cBefore = counterValue(ch.before.V)
+				}
+				if ch.after != nil {
+					a.cAfter = counterValue(ch.after.V)
+				}
+			}
 		}
 		if ch.rawChanged() {
 			nRaw++
@@ -458,6 +512,15 @@ func (w *world) doStep(st *stepT) bool {
 				fmt.Sprintf("operation on [%s] changed what the read API returns for %s %s:%s (%s)", targetsString(st.Targets), kind, qs(o.Table), qs(o.Key), ch.how()), "", "")
 		}
 	})
+	// the key counter of a table may change only by the number of keys of THAT table the operation created / removed.
+	// (One command per apply batch here: the counter is documented as inexact only for batched commands.)
+	for t, a := range tbl {
+		w.count("table_counter_exact_checks", 1)
+		if d := a.cAfter - a.cBefore; d != a.made-a.gone {
+			w.fail(st, "table-counter-wrong/"+st.Op, reply,
+				fmt.Sprintf("the operation created %d and removed %d kv keys of table %s, but the key counter of that table changed by %d (%d -> %d)", a.made, a.gone, qs(t), d, a.cBefore, a.cAfter), "", "")
+		}
+	}
 	if st.ExpectErr && (nRaw > 0 || !isErr) {
 		w.fail(st, "overlimit-accepted/"+st.Op, reply, fmt.Sprintf("over-limit name: reply %s, %d engine keys changed (must be refused without effect)", reply, nRaw), "", "")
 	}
